@@ -335,7 +335,7 @@ class Gen:
                 from . import daemon as _D
                 req = self.request(c)
                 base = _D.jtext(req)
-                k = r.randrange(12)
+                k = r.randrange(11 if self.single else 12)    # (one request per message in the small-table profile)
                 if k == 0:
                     text = base + r.choice([b" trailing", b"}", b"\x00\x00", b"{", b" [1]", b",", b"\n\n"])
                 elif k == 1:
